@@ -23,8 +23,8 @@ def main(argv: list[str]) -> int:
     try:
         bootstrap.ensure_deps()
         bootstrap.activate()
-    except bootstrap.Inconclusive as e:
-        ctx.inconclusive.append(str(e))
+    except Exception as e:  # incl. bootstrap.Inconclusive: the tree cannot be imported
+        ctx.inconclusive.append(f"tree not importable: {type(e).__name__}: {e}")
         json.dump(ctx.dump(), open(out, "w"))
         return 2
     warnings.simplefilter("ignore")
